@@ -115,6 +115,28 @@ def keeps_arguments(ctx, rule: str, func: str, what: str) -> None:
         ctx.ok(rule, f"{func} does not modify its arguments", where, "no mutation of a parameter region in its transitive summary")
 
 
+def no_stale_defaults(ctx, rule: str, func: str, what: str) -> None:
+    """`func` itself does not read a slot of a module-level options / defaults object that an earlier call of `func` has
+    overwritten with a value derived from that call's arguments (the C17.1 stale-slot finding, restricted to this function)."""
+    from .codec import OriginModel
+    from .rules_C17 import check_shared_writes
+    w = world(ctx)
+    func = _resolve(w, func)
+    fi = w.model.funcs.get(func)
+    if fi is None:
+        raise core.AnalysisError(f"anchor {func} not found")
+    where = f"{fi.rel}:{fi.node.lineno}"
+    rec = core.Recorder(ctx)
+    check_shared_writes(rec, w, OriginModel(ctx.sources))
+    hits = [o for o in rec.obligations if o.state == core.VIOLATED and "carries a value from one call into the next" in o.construct
+            and func in set(o.extra.get("owners", ()))]
+    for o in hits:
+        ctx.bad(rule, o.construct, o.where, o.detail + f" -- so {what} depends on the calls made before")
+    if not hits:
+        ctx.ok(rule, f"{func} reads no module-level slot that an earlier call of it has overwritten with an argument-derived value", where,
+               f"{len(rec.obligations)} shared-state obligations examined (see C17 for each)")
+
+
 def no_stale_memo(ctx, rule: str, funcs: List[str], what: str) -> None:
     """No function in the call trees of `funcs` answers from a memo / cache / slot that can hold a value computed for a
     DIFFERENT argument (incomplete or non-injective cache key, one-slot memo compared on part of its input, keyed memo read and
